@@ -170,15 +170,24 @@ def _decides_one_of(eng, q, ev):
     actual = [a for i, a in enumerate(ev[3]) if i < len(order) and order[i] == pn[0]][0]
     smq = eng.summary(fi, None, inline, ((pn[0], actual),))
     x, perm = P(smq.params[0]), actual
+
+    def same_collection(t):
+        # list(permitted) / tuple(permitted) / set(permitted): the same members
+        while is_call(t, ("builtin:list", "builtin:tuple", "builtin:set", "builtin:frozenset", "builtin:sorted")) and len(t[2]) == 1:
+            t = t[2][0]
+        if t == perm or t == sup_lit:
+            return True
+        return sup_lit is not None and lit_const_values(t) is not None and sorted(lit_const_values(t)) == sorted(lit_const_values(sup_lit))
+
     missing, refuted = KINDS["str"]
     n_acc = 0
     for p in smq.paths:
         facts = set(p.facts) | (set(p.value.conds) if p.kind == "raise" else set())
         if p.kind == "return":
             n_acc += 1
-            if missing(State(facts=facts), x) or not any(f[0] == "in" and f[1] == x and (f[2] == perm or f[2] == sup_lit) for f in facts):
+            if missing(State(facts=facts), x) or not any(f[0] == "in" and f[1] == x and same_collection(f[2]) for f in facts):
                 return False, "an accepting path does not establish 'a str that is in %s'" % pn[0]
-        elif not (refuted(facts, x) or any(f[0] == "notin" and f[1] == x and (f[2] == perm or f[2] == sup_lit) for f in facts)):
+        elif not (refuted(facts, x) or any(f[0] == "notin" and f[1] == x and same_collection(f[2]) for f in facts)):
             return False, "rejects for another reason: %s at %s" % (p.value.exc, p.value.chain[-1].loc())
     return n_acc > 0, "no accepting path"
 
